@@ -371,6 +371,13 @@ fn write_auth(c: &mut Ctx, rng: &mut impl Rng, ids: &[Ident], nflip: u64) {
             }
         }
         c.auth("single", &auth, &[key(i)], 1, &record, &[s[..100].to_vec()], "sig:truncated");
+        c.auth("single", &auth, &[key(i)], 1, &record, &[s[..s.len() - 1].to_vec()], "sig:truncated");
+        // a genuine signature followed by further bytes is a different signature string
+        for extra in [1usize, 2, 64, 3309] {
+            let mut s2 = s.clone();
+            s2.extend((0..extra).map(|_| if rng.gen_bool(0.5) { 0u8 } else { rng.r#gen() }));
+            c.auth("single", &auth, &[key(i)], 1, &record, &[s2], "sig:extended");
+        }
     }
     // delegated: authorised = a subset; signature by a member / by an outsider
     for _ in 0..20 {
@@ -390,6 +397,10 @@ fn write_auth(c: &mut Ctx, rng: &mut impl Rng, ids: &[Ident], nflip: u64) {
             c.auth("delegated", &auth, &keys, 1, &flip(&record, bit), &[s.clone()], "msg:bit");
             let bit = rng.gen_range(0..3309 * 8);
             c.auth("delegated", &auth, &keys, 1, &record, &[flip(&s, bit)], "sig:bit");
+            let mut s2 = s.clone();
+            s2.extend((0..[1usize, 7, 3309][rng.gen_range(0..3)]).map(|_| rng.r#gen::<u8>()));
+            c.auth("delegated", &auth, &keys, 1, &record, &[s2], "sig:extended");
+            c.auth("delegated", &auth, &keys, 1, &record, &[s[..s.len() - 1].to_vec()], "sig:truncated");
         }
         c.auth("delegated", &auth, &keys, 1, &record, &[], "no-signature");
     }
@@ -511,7 +522,8 @@ fn updates(c: &mut Ctx, rng: &mut impl Rng, ids: &[Ident], dir: &std::path::Path
             meta.push((kid, i));
         }
     }
-    let ver = SignatureVerifier::new(keys);
+    let mut ver = SignatureVerifier::new(keys);
+    let mut sigs_by: Vec<Option<(String, i64)>> = vec![None; ids.len()];
     let unknown = "key-not-pinned".to_string();
     let wrong_sum = SignatureVerifier::calculate_checksum(b"something else");
     for (i, id) in ids.iter().enumerate() {
@@ -519,6 +531,7 @@ fn updates(c: &mut Ctx, rng: &mut impl Rng, ids: &[Ident], dir: &std::path::Path
         let (p, st) = (c.it.tok(K_PK, id.pk.as_bytes()), c.it.tok(K_SIG, s.as_bytes()));
         c.t.ev(json!({"ev":"Sign","pk":p,"msg":mt,"sig":st,"origin":id.origin}));
         let sig64 = b64(s.as_bytes());
+        sigs_by[i] = Some((sig64.clone(), st));
         let mut calls: Vec<(String, String, String, &str)> = Vec::new(); // (key id, checksum, signature b64, how)
         for (kid, owner) in &meta {
             if *owner == i {
@@ -575,9 +588,51 @@ fn updates(c: &mut Ctx, rng: &mut impl Rng, ids: &[Ident], dir: &std::path::Path
             c.t.ev(json!({"ev":"Update","entry":"verify_file","msg":m2,"sum":s2t,"key_id":kt,"sig":st,"res":res,"how":"file:bit,checksum-recomputed"}));
         }
     }
+    // re-pinning: a key id that has already been used for verification on this verifier gets other key material
+    // (add_key with an id that is pinned already); signatures of the retired key must stop verifying under that id
+    // and signatures of the new key must verify
+    if ids.len() >= 2 {
+        // pairs of identities with different key material (the restored identity shares its key with the generated one)
+        let other = |i: usize| (0..ids.len()).find(|&j| ids[j].pk.as_bytes() != ids[i].pk.as_bytes() && sigs_by[j].is_some());
+        let mut pairs: Vec<(usize, usize)> = Vec::new();
+        for i in 0..ids.len().min(3) {
+            if let Some(j) = other(i) {
+                pairs.push((i, j));
+            }
+        }
+        pairs.push((0, 0));
+        for (i, j) in pairs {
+            let kid = format!("key-{i}-0");
+            ver.add_key(PinnedKey::new(kid.clone(), b64(ids[j].pk.as_bytes())));
+            let (kt, p) = (c.it.tok(K_MISC, kid.as_bytes()), c.it.tok(K_PK, ids[j].pk.as_bytes()));
+            c.t.ev(json!({"ev":"Pin","key_id":kt,"pk":p,"from":"none","until":"none","how":"add_key on a pinned id"}));
+            for signer in [i, j] {
+                let Some((sg, st)) = sigs_by[signer].clone() else { continue };
+                let how = if signer == j { "repinned:signature-of-new-key" } else { "repinned:signature-of-retired-key" };
+                let rt = &c.rt;
+                let r = common::catch(std::panic::AssertUnwindSafe(|| rt.block_on(ver.verify_file(&path, &sum, &kid, &sg))));
+                let res = match &r {
+                    Ok(Ok(())) => json!("true"),
+                    Ok(Err(_)) => json!("false"),
+                    Err(_) => json!("panic"),
+                };
+                c.t.ev(json!({"ev":"Update","entry":"verify_file","msg":mt,"sum":sumt,"key_id":kt,"sig":st,"res":res,"how":how}));
+                let r = common::catch(std::panic::AssertUnwindSafe(|| ver.verify_signature(&kid, &contents, &sg)));
+                let res = match &r {
+                    Ok(Ok(true)) => json!("true"),
+                    Ok(Ok(false)) | Ok(Err(_)) => json!("false"),
+                    Err(_) => json!("panic"),
+                };
+                c.t.ev(json!({"ev":"Update","entry":"verify_signature","msg":mt,"sum":sumt,"key_id":kt,"sig":st,"res":res,"how":how}));
+            }
+        }
+    }
 }
 
 /// Address-bound node identities (IPv4NodeID / IPv6NodeID over GenericIpNodeID).
+#[allow(dead_code)]
+fn _marker() {}
+
 fn ip_ids(c: &mut Ctx, rng: &mut impl Rng, ids: &[Ident], nflip: u64) {
     for (i, id) in ids.iter().enumerate() {
         let sk: MlDsaSecretKey = match &id.signer {
